@@ -418,7 +418,7 @@ def evaluate(ctx, batch, real_cmd, model_cmd, env, problems, reasons):
                                       "how": "feed `request` to harness/h_literals.cc built on corpus/C09/lit.exp (./check C09 --replay FILE)"}))
                 nprob += 1
                 continue
-            if r != parts[0]:
+            if r != parts[0] and mutated != "sentinel":
                 problems.append(("correspondence", line, f"impl {r!r} vs model {parts[0]!r}", None))
                 nprob += 1
         elif meta[0] == "sq":
@@ -747,6 +747,14 @@ def aggregate_batch(ctx, quick):
         # an element that is not there at all
         for txt in [f"({t1},,{t2}),", f"({t1},),", f"(,{t1}),", f"(/*c*/,{t1}),", f"({t1}, /*c*/ ,{t2}),", f"({t1},{t2}, ),"]:
             add(kind, txt, None, "missing")
+        # an element that is the library's in-band null (S_INT_NULL / S_REAL_NULL): since fixes/C09-9 ReadInteger / ReadReal /
+        # ReadNumber report it, also inside an aggregate.  Oracle only: the element path of the reader model (C01's
+        # scalarNodeRead) still calls readInteger / readReal without the sentinel wrappers readIntegerS / readRealS, so the model
+        # is not compared on these lines (it answers NULL; the switch is coordinated with C01, notes/C09.md "still open")
+        sent = {"INTEGER": "9223372036854775807", "REAL": "1.1754943508222875E-38", "NUMBER": "1.1754943508222875E-38"}.get(kind)
+        if sent:
+            for txt in [f"({sent}),", f"({t1},{sent}),", f"({sent} , {t2}),", f"( /*c*/ {sent} ),"]:
+                add(kind, txt, None, "sentinel")
         for txt in ["$,", " ,", ")", ""]:
             add(kind, txt, None, None)     # missing / null aggregate for a required attribute: INCOMPLETE; model vs implementation
     return b
